@@ -159,10 +159,43 @@ def rule_units(ctx, f):
                             continue
                         stack.extend(cfg.succ[x])
                     okh = bool(first) and all(writes[x] is not None and _re.match(r"^\{\} \{\} obj", writes[x]) for x in first)
+                    # ... and that header carries the number the position is stored under (`refs.set(id, Raw { pos })`)
+                    def roots(loc):
+                        return {(a0[1], a0[2]) for a0 in fl.origins(loc, passthrough=PASS_LAST + ("get_inner", "get_ref")) if a0[0] == "call" and
+                                last_seg(a0[1]) in ("next", "promise", "create", "len", "push")} if loc is not None else set()
+                    set_ids = set()
+                    for sb, stt in F.calls(b):
+                        if F.callee_name(stt) == "xref::XRefTable::set" and len(stt["args"]) >= 3:
+                            vl = arg_local(stt, 2)
+                            if vl is not None and any(a0[0] == "agg" and a0[2] == i and a0[1].get("variant") == "Raw" for a0 in fl.origins(vl, passthrough=())):
+                                set_ids |= roots(arg_local(stt, 1))
+                    same_obj = bool(set_ids) and bool(first)
+                    for x in first:
+                        sp = b["blocks"][x]["term"]["span"]
+                        argcalls = sorted((ab, at) for ab, at in F.calls(b) if F.callee_name(at).startswith("core::fmt::rt::Argument") and at["span"] == sp)
+                        hid = roots(arg_local(argcalls[0][1], 0)) if argcalls else set()
+                        same_obj = same_obj and bool(hid & set_ids)
+                    ctx.check(same_obj, "C09-UNITS", b["id"] + "#Raw.pos-of-object-%d" % k2, "the position is stored for one object but the header written at that position is another "
+                              "object's: the cross-reference entry (and, for the cross-reference stream, startxref) points at the wrong object", b["blocks"][L]["term"]["span"],
+                              detail="the `N G obj` header after the read carries the id passed to refs.set")
                     ctx.check(okh, "C09-UNITS", b["id"] + "#Raw.pos-at-header-%d" % k2, "the position stored for an object is not read right before its `N G obj` header is "
                               "written (next output after the read: %s): the cross-reference entry points into the object instead of at its start" %
                               sorted(str(writes[x]) for x in first), b["blocks"][L]["term"]["span"], detail="pos = len(); then `N G obj`")
         ctx.floor("C09-UNITS", k2, 2, "reads of the backend length that become object positions")
+        # every pending change is written: each turn of the loop over the changes reaches the entry store and the serialiser
+        loops = cfg.loops()
+        for sb, stt in F.calls(b):
+            if F.callee_name(stt) != "xref::XRefTable::set":
+                continue
+            for h, blk in loops.items():
+                if sb not in blk:
+                    continue
+                sers = [wb for wb, wt in F.calls(b) if wb in blk and last_seg(F.callee_name(wt)) == "serialize"]
+                backs = [a_ for a_, h2 in cfg.back_edges() if h2 == h]
+                every = bool(backs) and bool(sers) and all(cfg.all_paths_pass(h, [a_], {sb}) and cfg.all_paths_pass(h, [a_], set(sers)) for a_ in backs)
+                ctx.check(every, "C09-UNITS", b["id"] + "#every-change-written", "a turn of the loop over the pending changes can go on to the next change without storing the entry "
+                          "and writing the object: that modification (a null that deletes an object, say) is not in the saved file", stt["span"],
+                          detail="every path round the loop passes refs.set and serialize")
         # startxref operand: usize values formatted into the backend
         m = 0
         for bi, t in F.calls(b):
@@ -229,20 +262,30 @@ def rule_append(ctx, f):
     for b in storage_method(f, "save"):
         fl = Flow(b)
         n = 0
+        # what may be done with a mutable borrow of the buffer: append, or pass it through unchanged
+        appenders = ("write", "write_all", "write_fmt", "extend", "extend_from_slice", "push", "reserve", "flush", "by_ref", "deref_mut", "borrow_mut", "as_mut")
         for bi, t in F.calls(b):
-            if not t["args"]:
-                continue
-            l = arg_local(t, 0)
-            if l is None:
-                continue
-            flds = set()
-            fl.origins(l, fields=flds)
-            if "backend" not in flds:
-                continue
-            n += 1
-            nm = last_seg(F.callee_name(t))
-            ctx.check(nm not in bad_names, "C09-G3", b["id"] + "#backend." + nm,
-                      "save calls %s on the backend buffer: the previous revision is no longer an unmodified prefix" % nm, t["span"], detail="backend.%s" % nm)
+            for k, a in enumerate(t["args"]):
+                l = F.op_local(a)
+                if l is None:
+                    continue
+                flds = set()
+                fl.origins(l, fields=flds)
+                if "backend" not in flds:
+                    continue
+                nm = last_seg(F.callee_name(t))
+                mut = t["arg_tys"][k]["s"].startswith("&mut")
+                if k == 0:
+                    n += 1
+                    ctx.check(nm not in bad_names and (not mut or nm in appenders), "C09-G3", b["id"] + "#backend." + nm,
+                              "save calls %s on the backend buffer: the previous revision is no longer an unmodified prefix" % nm, t["span"], detail="backend.%s" % nm)
+                elif mut:
+                    # handed to a writer: that writer only knows it as `impl io::Write` (it can append and nothing else)
+                    cb = f.bodies.get(t.get("resolved") or "") if t.get("resolved_local") else None
+                    pty = cb["locals"][k + 1]["s"] if cb is not None and k + 1 < len(cb["locals"]) else ""
+                    generic = cb is not None and "Vec<" not in pty and "[u8]" not in pty
+                    ctx.check(generic, "C09-G3", b["id"] + "#backend->" + nm, "save hands the backend buffer as %s to %s, which is not limited to io::Write: the previous revision "
+                              "may be changed there" % (pty or "&mut Vec<u8>", F.callee_name(t)), t["span"], detail="%s(.., out: %s)" % (nm, pty))
         # direct stores through the backend
         for i, j, s in F.stmts(b):
             if s[0] == "assign" and any(e[0] == "field" and e[2] == "backend" for e in s[1][1:]):
@@ -307,6 +350,23 @@ def rule_last_write(ctx, f):
         if ap is not None and any(last_seg(F.callee_name(t)) == "append" and "Dictionary" in F.callee_name(t) for bi, t in F.calls(b)):
             names = {last_seg(F.callee_name(t)) for bb in f.with_closures(ap["id"]) for bi, t in F.calls(bb)}
             drop = sorted(names & {"filter", "filter_map", "skip", "take", "take_while", "skip_while", "retain", "step_by"})
+            # ... unconditionally: the only decisions in the merge are those of the iteration itself (a test of what is already there, or of
+            # the new value, keeps an entry back)
+            cond = []
+            for bb in f.with_closures(ap["id"]):
+                bfl = Flow(bb)
+                for i2, blk2 in enumerate(bb["blocks"]):
+                    t2 = blk2["term"]
+                    if t2["k"] != "switch" or blk2.get("cleanup"):
+                        continue
+                    dl2 = F.op_local(t2["discr"])
+                    ats2 = bfl.origins(dl2, passthrough=()) if dl2 is not None else []
+                    calls2 = [last_seg(a2[1]) for a2 in ats2 if a2[0] == "call"]
+                    if calls2 == ["next"] or (not calls2 and ats2 and all(a2[0] == "const" for a2 in ats2)):
+                        continue
+                    cond.append(calls2 or ["test"])
+            if cond:
+                drop = drop + ["a test (%s)" % ", ".join(sorted({x for c_ in cond for x in c_}))]
             ctx.check(not drop and bool(names & {"extend", "insert", "append"}), "C09-G4", "primitive::Dictionary::append#all-entries", "Dictionary::append (the merge used by a "
                       "second update of the same object) applies %s to the new entries: some of what the caller wrote - a null that removes a key, say - does not reach "
                       "the pending value" % drop, ap["span"], detail="self.dict.extend(other.dict)")
